@@ -52,6 +52,27 @@ struct SerRec {
 }
 const SER_SCHEMA: &str = r#"{"type":"record","name":"SerRec","fields":[{"name":"a","type":"long"},{"name":"s","type":"string"},{"name":"l","type":{"type":"array","items":"string"}},{"name":"m","type":{"type":"map","values":"int"}},{"name":"o","type":["null","double"]}]}"#;
 
+/// struct field order is the reverse of the schema's: the serializer has to hold fields back
+#[derive(Serialize)]
+struct SerOut {
+    e: Option<String>,
+    d: String,
+    c: Vec<i32>,
+    b: String,
+    a: i64,
+}
+const SER_OUT_SCHEMA: &str = r#"{"type":"record","name":"SerOut","fields":[{"name":"a","type":"long"},{"name":"b","type":"string"},{"name":"c","type":{"type":"array","items":"int"}},{"name":"d","type":"string"},{"name":"e","type":["null","string"]}]}"#;
+
+fn ser_out_value(n: u64) -> SerOut {
+    SerOut {
+        e: if n % 3 == 0 { None } else { Some("e".repeat((n % 7) as usize)) },
+        d: "dd".repeat((n % 9) as usize + 1),
+        c: (0..(n % 6)).map(|i| (i as i32) * 1000).collect(),
+        b: "b".repeat((n % 11) as usize + 2),
+        a: n as i64 * 77,
+    }
+}
+
 fn ser_value(n: u64) -> SerRec {
     SerRec {
         a: n as i64 * 1_000_003,
@@ -102,6 +123,13 @@ pub fn sinkrun(a: &[Sexp]) -> Sexp {
                 let w = GenericDatumWriter::builder(&schema).maybe_target_block_size(bs).build().unwrap();
                 let mut s = sink.clone();
                 results.push(res_n(w.write_ser(&mut s, &ser_value(n))));
+            }
+            "datum-ser2" => {
+                let schema = apache_avro::Schema::parse_str(SER_OUT_SCHEMA).unwrap();
+                let n = p[0].as_u64().unwrap_or(0);
+                let w = GenericDatumWriter::builder(&schema).build().unwrap();
+                let mut s = sink.clone();
+                results.push(res_n(w.write_ser(&mut s, &ser_out_value(n))));
             }
             "so" => {
                 let schema = match parse_schema(&p[0]) {
